@@ -143,6 +143,37 @@ pub fn main() {
             println!("{}", serde_json::to_string(&engine::ref_child(&spec, slot)).unwrap());
             exit(0)
         }
+        #[cfg(feature = "engine_c")]
+        "shuttle" | "shuttle-spec" => {
+            // dst shuttle --seed S --index I --iters N [--c18] [--pct D] [--persist DIR] [--replay FILE] [--dump-only]
+            // dst shuttle-spec <json> --seed S --iters N ...            (minimisation candidates)
+            use crate::shuttle_mode::{self, Mode};
+            let seed = parse_u64(&arg_val(&args, "--seed").expect("--seed"));
+            let iters = arg_val(&args, "--iters").map(|s| parse_u64(&s) as usize).unwrap_or(1000);
+            let c18 = args.iter().any(|a| a == "--c18");
+            let (spec, index) = if args[1] == "shuttle-spec" {
+                let json = args.get(2).expect("shuttle-spec <json>");
+                (serde_json::from_str::<types::RunSpec>(json).unwrap_or_else(|e| {
+                    eprintln!("shuttle-spec: cannot parse workload: {e}");
+                    exit(2)
+                }), 0)
+            } else {
+                let index = parse_u64(&arg_val(&args, "--index").expect("--index"));
+                (shuttle_mode::workload(seed, index, c18), index)
+            };
+            if args.iter().any(|a| a == "--dump-only") {
+                println!("{}", serde_json::to_string(&spec).unwrap());
+                exit(0);
+            }
+            let mode = if let Some(f) = arg_val(&args, "--replay") {
+                Mode::Replay(f)
+            } else if let Some(d) = arg_val(&args, "--pct") {
+                Mode::Pct(parse_u64(&d) as usize)
+            } else {
+                Mode::Random
+            };
+            exit(shuttle_mode::run(spec, rng::derive(rng::derive(seed, 0x5C4E_D01E), index), iters, mode, arg_val(&args, "--persist")));
+        }
         "selfcheck" => exit(selfcheck()),
         other => {
             eprintln!("unknown command {other}");
